@@ -1374,7 +1374,7 @@ _AN_CACHE: dict[int, Analyzer] = {}
 
 
 def get_analyzer(prog: Program) -> Analyzer:
-    if id(prog) not in _AN_CACHE:
+    if getattr(prog, '_cache_an', None) is None:
         an = Analyzer(prog)
         an.crashed = []
         for fn in prog.package_functions():
@@ -1386,8 +1386,8 @@ def get_analyzer(prog: Program) -> Analyzer:
                 an.crashed.append((fn, "recursion limit"))
             except Exception as e:  # noqa: BLE001 - a construct outside the vocabulary must never become a verdict
                 an.crashed.append((fn, f"{type(e).__name__}: {e}"))
-        _AN_CACHE[id(prog)] = an
-    return _AN_CACHE[id(prog)]
+        prog._cache_an = an
+    return prog._cache_an
 
 
 RULE_TEXT = {
